@@ -550,6 +550,17 @@ def gen_scripts(ctx):
             for pos in POSITIONS:
                 yield (("reader-ends:" + pos, template(pre + [b] + [okack], pos, CFGS[0])))
 
+    # ... and with the awaited frame queued in the same segment as the frame that ends the reader task, not at its head: a
+    # consumer woken on a connection closed meanwhile gets the frame it was woken with and nothing more
+    for b in bad[:3]:
+        for pre in ([["diag", tgt + 1, src, "7f01"], ["diag", tgt, src, "6204"]],
+                    [["diag", tgt, src, "6204"], ["diag", tgt + 1, src, "7f01"]],
+                    [["diag", tgt + 1, src, "7f01"], ["alive", ""], ["diag", tgt, src, "6204"]],
+                    [["diag", tgt + 1, src, "7f01"], okack], [okack, ["diag", tgt, src, "6204"]],
+                    [["alive", ""], ["diag", tgt + 1, src, "7f01"], okack]):
+            for pos in POSITIONS:
+                yield (("reader-ends-behind:" + pos, template(pre + [b], pos, CFGS[0])))
+
     # 5b. codec: frames of the dispatched payload types with arbitrary (mostly short / boundary) payloads, idle
     for _ in range(ctx.pick(400, 4000)):
         cfg = rng.choice(CFGS)
